@@ -85,6 +85,18 @@ M = {
  "C06c-m2": ("C06", "two bytes of RISTRETTO_BASEPOINT_COMPRESSED transposed (still a valid encoding of another element)", "a code path that uses the compressed constant", {}),
  "C09c-m1": ("C09", "verify_prehashed_strict rejects only R = identity and weak keys (same idea as C09-m2, found independently)", "digest feature, prehashed strict entry point, small-order non-identity R with a mixed-order key", {}),
  "C09c-m2": ("C09", "VerifyingKey::try_from(&[u8]) stores the canonical re-encoding instead of the supplied bytes", "a slice-based constructor and a non-canonical but decodable key encoding", {"C09": "caught by the comparison of every constructor's stored bytes added on reading this change (before: only is_ok of the two constructors was compared)"}),
+ "C07c-m1": ("C07", "Hash for MontgomeryPoint hashes the raw bytes (top bit cleared) instead of the value mod p", "one of the 19 encodings in [p, 2^255) used as a hash key", {}),
+ "C07c-m2": ("C07", "MontgomeryPoint::mul_clamped returns its input when it is the identity (mod p) - the caller's encoding, not zeros", "the non-canonical encodings of u = 0 (2^255, p, p + 2^255)", {}),
+ "C08c-m1": ("C08", "raw_sign_prehashed leaves the context out of the nonce hash (same idea as C08b-m1, found independently)", "digest feature, non-empty context, comparison with RFC 8032", {}),
+ "C08c-m2": ("C08", "from_keypair_bytes swallows the decode error of the public half (same idea as C08-m2, found independently)", "a public half that is not a curve point", {}),
+ "C11c-m1": ("C11", "projective Niels form caches T*d; the addition formulas double the product lazily (two cooperating sites)", "32-bit backend: cZ is a sum of four reduced values on the tight side (b < 1.75) of the next multiplication", {}),
+ "C11c-m2": ("C11", "double_and_compress_batch moves the factor two from e onto g = YY + XX", "32-bit backend; a representation with a large even limb in X^2 + Y^2 (about 1 in 5)", {}),
+ "C14c-m1": ("C14", "Scalar::batch_invert builds its scratch vector with push (same idea as C14-m1, found independently)", "batch size n >= 5", {}),
+ "C14c-m2": ("C14", "EdwardsPoint::zeroize wipes X twice and never T (same effect as C14b-m2)", "inspection of the wiped point's storage", {}),
+ "C15c-m1": ("C15", "verify_batch length check: the two || became &&", "batch feature; lengths of which exactly two agree (index / assert panics, or a silent Ok)", {}),
+ "C15c-m2": ("C15", "ExpandedSecretKey::from_slice checks len < 64 and then copy_from_slice", "hazmat feature; a slice longer than 64 bytes", {}),
+ "C16c-m1": ("C16", "VerifyingKey visit_bytes truncates over-long byte strings to 32 bytes", "serde feature, a byte-string format (bincode), a payload longer than 32 bytes", {}),
+ "C16c-m2": ("C16", "Scalar visit_seq reduces before its canonicity check", "serde feature, a payload of value l or more", {}),
  "C10-own1": ("C10", "LookupTable::select reads the entry by direct index (own seeded change from the design's appendix, not from a sub-agent)", "any secret digit", {"C10": "caught (lock-step traces of ed.mul_base diverge)"}),
 }
 # measured results: seeded/RESULTS.log (appended by tools/run_seeded.sh); the latest line per (change, check, tier) counts
